@@ -82,7 +82,8 @@ def run(ctx):
                                     is_nameplate_key(sc, term, before):
                                 hit = True
                             if col == "nameplates_id" and op == "in" and term[0] == "subselect" \
-                                    and term[1] == "nameplates" and term[3] is not None and \
+                                    and term[1] == "nameplates" and tuple(term[2]) == ("id",) \
+                                    and term[3] is not None and \
                                     any((c == "mailbox_id" and is_own_mailbox_id(v)) or
                                         (c == "id" and is_nameplate_key(sc, v, before))
                                         for (c, v) in term[3]):
@@ -172,6 +173,24 @@ def run(ctx):
                        "" if ok else "the refusal comes after stored state was changed",
                        None if ok else render_path(p.events))
     ctx.require("R07.reclaim", nr, 1, "ReclaimedError raise sites reached")
+    # the refusal is decided by this side's own claim row being released
+    from ..e3 import pc_truth
+    for p in model.paths("ws:onMessage"):
+        for e, _ in all_events(p, ("raise",)):
+            if e["cls"] != "ReclaimedError":
+                continue
+            own = None
+            for x, _ in all_events(p, ("sql",)):
+                if x["stmt"].kind == "select" and x["stmt"].table == "nameplate_sides":
+                    eq = x["binds"]["where_eq"]
+                    if eq is not None and set(eq) == {"nameplates_id", "side"}:
+                        own = ("row", x["site"])
+            truth = pc_truth(e["pc"])
+            ok = own is not None and truth.get(own) is True and \
+                truth.get(("sub", own, ("const", "claimed"))) is False
+            ctx.ob("R07.reclaim", construct_of(e) + " [condition]", ok, e,
+                   "" if ok else "`reclaimed` is not decided by 'this side has a claim row "
+                   "on this nameplate and it is released'")
     # R07.answer
     na = 0
     for p in handler_paths(model, h_rel):
